@@ -285,3 +285,64 @@ def rule_q(prog, chk):
                    detail=None if not bad else "`%s` is sorted as it is: undefined values (1.234e30) sort as the largest data and are returned as upper quantiles" % show(x),
                    key="C11q|%s" % f.sig())
     chk.floor("C11q", n, 2)
+
+
+def rule_o(prog, chk):
+    """C11o - an overload that works row by row hands its options to every row.  When a function with a bool parameter `b` calls a
+    same-named overload that also has a bool parameter `b`, the argument is `b` itself - for EVERY call (the first row computed
+    outside the loop included): `VH::maximum(vec[0])` next to `VH::maximum(vec[i], flagAbs)` takes the first row without the option."""
+    def strip(e):
+        while e is not None and e["k"] in ("Cast", "Paren") and e.get("c"):
+            e = e["c"][0]
+        return e
+    n = 0
+    for f in sorted(prog.funcs, key=lambda x: (x.file, x.line)):
+        if f.body is None:
+            continue
+        bools = {p_["n"]: p_["d"] for p_ in f.params if p_["t"].strip() in ("bool", "const bool")}
+        if not bools:
+            continue
+        for c in f.calls():
+            if c.get("callee") != f.name:
+                continue
+            cal = [g for g in prog.fns(c.get("callee")) if len(g.params) == len(call_args(c)) and g.usr != f.usr]
+            if not cal:
+                continue
+            for k, p_ in enumerate(cal[0].params):
+                if p_["n"] not in bools or p_["t"].strip() not in ("bool", "const bool"):
+                    continue
+                a = call_args(c)[k]
+                n += 1
+                aa = strip(a) if a is not None and a["k"] != "DefaultArg" else a
+                ok = aa is not None and aa["k"] == "DeclRefExpr" and aa.get("d") == bools[p_["n"]]
+                if not ok:
+                    chk.analysed(f)
+                chk.ob("C11o", "%s: `%s` receives the option `%s` of its caller" % (f.sig(), show(c)[:40], p_["n"]), f.loc(c), ok,
+                       detail=None if ok else "the call leaves `%s` to %s while the sibling calls of the same function pass it on: this row is processed "
+                       "without the option" % (p_["n"], "its default" if a is not None and a["k"] == "DefaultArg" else show(a)[:20]),
+                       key="C11o|%s|%s|%s" % (f.sig(), show(c)[:30], p_["n"]), nontrivial=not ok)
+    chk.floor("C11o", n, 8)
+
+
+def rule_r(prog, chk):
+    """C11r - the helper that both the copy constructor and the assignment delegate to (`_recopy`) copies every data member of its class:
+    a member left out (the eigen values of a dense matrix) keeps the value of the default constructor in every copy."""
+    n = 0
+    for K in sorted(prog.classes):
+        rc = [f for f in prog.fns(K + "::_recopy") if f.body is not None]
+        if not rc:
+            continue
+        assigned = set()
+        for x in rc[0].walk():
+            if x["k"] in ("Assign", "OpCall") and x.get("op") == "=" and x["c"][0] is not None and x["c"][0]["k"] == "MemberExpr":
+                assigned.add(x["c"][0]["n"])
+        for fl in prog.classes[K].get("fields", []):
+            if fl.get("static"):
+                continue
+            n += 1
+            ok = fl["n"] in assigned
+            chk.analysed(rc[0])
+            chk.ob("C11r", "%s::_recopy copies `%s`" % (K, fl["n"]), rc[0].loc(), ok,
+                   detail=None if ok else "the member is not assigned by the helper that the copy constructor and operator= share: a copy holds the value "
+                   "of a freshly constructed object", key="C11r|%s|%s" % (K, fl["n"]))
+    chk.floor("C11r", n, 3)
